@@ -40,7 +40,9 @@ OPTIONS = {
 }
 FREE_TEXT = ("name", "CFF ", "CFF2", "meta", "SVG ", "TSI0", "TSI1", "TSI2", "TSI3", "TSI5", "TSIB", "TSIC", "TSID", "TSIJ", "TSIP", "TSIS", "TSIV", "ltag", "Debg")
 
-HOSTILE_GLYPHS = ["a&b", "a<b", 'a"b', "a'b", "a>b", "a b", "a]]>b", "a.b-c", "Aacute_", "_1"]
+# the last four collide pairwise as per-glyph file names (splitGlyphs): 'A/b' and 'A_b' both give
+# A__b (an upper-case clash), 'a?b' and 'a*b' both give a_b
+HOSTILE_GLYPHS = ["a&b", "a<b", 'a"b', "a'b", "a>b", "a b", "a]]>b", "a.b-c", "Aacute_", "_1", "A/b", "A_b", "a?b", "a*b"]
 HOSTILE_STRINGS = ["<", ">", "&", '"', "'", " lead", "trail ", "two  spaces", "tab\there", "é", "￿"[:0] + " ", "\U0001F600", "]]>", "a&amp;b", "&#65;", "line\nbreak"]
 
 
@@ -221,9 +223,10 @@ def cfg_class(cfg, sel):
 
 class Programs(Unit):
     name = "ttprogram-assembly"
-    rule = ("TrueType instruction streams: every opcode 0x00..0xFF as a one-instruction program (push opcodes with every legal count and boundary operand values), every ordered pair of 40 representative opcodes, and PUSH runs of n in {1,2,7,8,9,255,256} byte/word values: "
+    rule = ("TrueType instruction streams: every opcode 0x00..0xFF as a one-instruction program (push opcodes with every legal count and boundary operand values), every ordered pair of 40 representative opcodes, PUSH runs of n in {1,2,7,8,9,255,256} byte/word values, and every push instruction cut short at every length (malformed: the XML dump must stay lossless in both modes, and any assembly produced must read back): "
             "bytecode -> assembly text -> bytecode is the identity, and assembly -> bytecode -> assembly is a fixed point; distinct = each program")
     chunk = 64
+    required_witnesses = ("truncated push instruction",)
 
     def cases(self, tier, seed):
         for op in range(256):
@@ -241,6 +244,14 @@ class Programs(Unit):
         for n in (1, 2, 7, 8, 9, 255, 256):
             for kind in ("b", "w", "mixed"):
                 yield ["push", n, kind]
+        # malformed streams: every push instruction cut short at every length (alone and after a
+        # well-formed instruction); they cannot be disassembled, the dump must stay lossless
+        for op in [0x40, 0x41] + list(range(0xB0, 0xC0)):
+            full = self.instr(op, 1)
+            cuts = range(1, len(full)) if len(full) <= 20 else [1, 2, 3, len(full) // 2, len(full) - 2, len(full) - 1]
+            for cut in cuts:
+                yield ["trunc", op, cut, 0]
+                yield ["trunc", op, cut, 1]
 
     @staticmethod
     def instr(op, variant=0):
@@ -262,7 +273,11 @@ class Programs(Unit):
     def check(self, case, rec):
         from fontTools.ttLib.tables.ttProgram import Program
 
-        if case[0] == "one":
+        malformed = case[0] == "trunc"
+        if malformed:
+            progs = [(self.instr(0xB1) + b"\x01" if case[3] else b"") + self.instr(case[1], 1)[: case[2]]]
+            rec.witness("truncated push instruction")
+        elif case[0] == "one":
             progs = [self.instr(case[1], v) for v in range(3 if case[1] in (0x40, 0x41) else 1)]
         elif case[0] == "two":
             progs = [self.instr(case[1]) + self.instr(case[2])]
@@ -280,15 +295,32 @@ class Programs(Unit):
         for bc in progs:
             p = Program()
             p.fromBytecode(bc)
-            asm = p.getAssembly()
+            try:
+                asm = p.getAssembly()
+            except Exception:
+                if not malformed:
+                    raise
+                asm = None
+            if malformed and asm is not None:
+                # a stream that ends inside an instruction has no assembly form that reads back
+                q = Program()
+                q.fromAssembly(asm)
+                if bytes(q.getBytecode()) != bytes(bc):
+                    rec.violation("ttprogram:malformed-disassembled", "truncated program %s was disassembled to %r, which assembles to %s" % (bytes(bc).hex(), asm[:4], bytes(q.getBytecode()).hex()), case=case)
             q = Program()
-            q.fromAssembly(asm)
-            bc2 = q.getBytecode()
-            if bytes(bc2) != bytes(bc):
+            if asm is None:
+                asm = []
+                bc2 = bc
+            else:
+                q.fromAssembly(asm)
+                bc2 = q.getBytecode()
+            if malformed:
+                pass
+            elif bytes(bc2) != bytes(bc):
                 rec.violation("ttprogram:bytecode-roundtrip", "bytecode %s -> %r -> %s" % (bytes(bc).hex()[:80], asm[:6], bytes(bc2).hex()[:80]), case=case)
             r = Program()
             r.fromBytecode(bc2)
-            if r.getAssembly() != asm:
+            if not malformed and r.getAssembly() != asm:
                 rec.violation("ttprogram:assembly-fixedpoint", "assembly not a fixed point for %s" % bytes(bc).hex()[:80], case=case)
             # through XML as well
             from fontTools.misc.xmlWriter import XMLWriter
